@@ -263,6 +263,7 @@ func stringBytes(s *Stream) ([]byte, error) {
 			_, _, p = s.stat()
 			cursor += runeErrBytesLen
 			s.length += runeErrBytesLen - 1 // one byte became three
+			s.offset -= runeErrBytesLen - 1 // ... in the window, not in the input
 			continue
 		case nul:
 			s.cursor = cursor
@@ -294,6 +295,7 @@ func stringBytes(s *Stream) ([]byte, error) {
 				s.buf = append(append(append([]byte{}, s.buf[:cursor]...), runeErrBytes...), s.buf[cursor+1:]...)
 				cursor += runeErrBytesLen
 				s.length += runeErrBytesLen - 1 // one byte became three
+				s.offset -= runeErrBytesLen - 1 // ... in the window, not in the input
 				_, _, p = s.stat()
 			} else {
 				cursor += int64(size)
